@@ -83,7 +83,7 @@ CLAIMED = {
                 "every word of a stream in order, string_and_value - computes the parser fold of the language's word model and fraction-word model (for interpreters that declare such models; "
                 "push has a functional contract for them) and renders it as int, mark, frac when a separator was seen and fraction digits followed; (b) per language "
                 "(lemma_en_decimal, lemma_es_decimal, lemma_fr_decimal, lemma_pt_decimal): for every z, every n below 10^12 and every fraction (English: any non-empty sequence of dictated digits; Spanish / French: "
-                "any number of zero words followed by the spelling of any m in [1, 10^12)), the parser fold over 'zeros spell(n) separator fraction' ends with the integer builder holding exactly "
+                "zero words and / or the spelling of any m below 10^12; the integer part may be a spoken zero, the fraction may be zeros only), the parser fold over 'zeros spell(n) separator fraction' ends with the integer builder holding exactly "
                 "the zeros and the digits of n, the fraction builder holding exactly the fraction's digits with its leading zeros, and the separator seen. The decimal round trip for these "
                 "languages is the substitution of (b) into (a). NOT proved: that substitution inside one verifier query (the two halves live in different units); it, de, nl (bounded evidence only); "
                 "the same phrase found inside a sentence by the scanner.",
